@@ -102,7 +102,7 @@ class C19(Check):
         plan["mode"] = mode
         plan["scheme"] = rng.choice(["tcp", "unix"])
         burst = rng.random() < 0.08
-        n = rng.choice([1, 1, 2, 3, 5, 8]) if not burst else rng.choice([50, 120, 200])
+        n = rng.choice([1, 1, 2, 3, 5, 8]) if not burst else rng.choice([50, 120, 200] if tier == "quick" else [200, 500, 1000])
         big = rng.random() < 0.1 and not burst
         msgs = gen_msgs(rng, n, big)
         plan["msgs"] = msgs
